@@ -1,2 +1,969 @@
-use vkit::Ctx;
-pub fn run(_ctx: &mut Ctx) {}
+//! C12 — the sparse LDL' engine factors, solves, refactors correctly or reports errors.
+//!
+//! Oracles (all on the public `clarabel::qdldl` API):
+//!  * dense double-double reference LDL' of P A P' with the same regularisation rule
+//!    (pivots within a don't-care band of the threshold are skipped);
+//!  * reconstruction  |PAP' - LDL'| <= c n u |L||D||L'|  off the regularised pivots;
+//!  * solve residual in double-double;  positive_inertia = #{D>0} (= #positive eigenvalues);
+//!  * refactor after update/scale/offset histories bit-identical to a fresh factorisation;
+//!  * error contract: non-square / non-triu / empty column / invalid permutation / zero pivot => Err.
+
+use clarabel::algebra::CscMatrix;
+use clarabel::qdldl::*;
+use serde_json::json;
+use vkit::dense::Dense;
+use vkit::report::catch;
+use vkit::{Ctx, Rng, DD};
+
+const U: f64 = 1.1102230246251565e-16;
+
+fn csc_json(c: &CscMatrix<f64>) -> serde_json::Value {
+    json!({"m": c.m, "n": c.n, "colptr": c.colptr, "rowval": c.rowval, "nzval": c.nzval})
+}
+
+fn is_perm(p: &[usize], n: usize) -> bool {
+    if p.len() != n {
+        return false;
+    }
+    let mut seen = vec![false; n];
+    for &x in p {
+        if x >= n || seen[x] {
+            return false;
+        }
+        seen[x] = true;
+    }
+    true
+}
+
+/// all permutations of 0..n in lexicographic order
+fn all_perms(n: usize) -> Vec<Vec<usize>> {
+    fn rec(cur: &mut Vec<usize>, used: &mut Vec<bool>, n: usize, out: &mut Vec<Vec<usize>>) {
+        if cur.len() == n {
+            out.push(cur.clone());
+            return;
+        }
+        for i in 0..n {
+            if !used[i] {
+                used[i] = true;
+                cur.push(i);
+                rec(cur, used, n, out);
+                cur.pop();
+                used[i] = false;
+            }
+        }
+    }
+    let mut out = vec![];
+    rec(&mut vec![], &mut vec![false; n], n, &mut out);
+    out
+}
+
+struct RefLdl {
+    l: Vec<DD>, // n*n row-major strictly lower
+    d: Vec<DD>,
+    regularized: Vec<bool>,
+    /// some decision (threshold test, exact-zero test) falls inside the rounding
+    /// uncertainty of the f64 computation: nothing after it can be predicted
+    dontcare: bool,
+    zero_pivot: Option<usize>,
+    /// per pivot: |A_kk| + sum |L_kj|^2 |D_j|  (magnitude that entered the pivot)
+    mag: Vec<f64>,
+    /// per pivot: accumulated conditioning max_{j<=k} mag_j/|D_j|
+    cond: Vec<f64>,
+}
+
+/// dense reference LDL' (double-double) of the symmetric matrix `a` (row-major, already permuted)
+fn ref_ldl(n: usize, a: &Dense, signs: &[i8], reg: bool, eps: f64, delta: f64) -> RefLdl {
+    let mut l = vec![DD::ZERO; n * n];
+    let mut d = vec![DD::ZERO; n];
+    let mut regularized = vec![false; n];
+    let mut dontcare = false;
+    let mut mag = vec![0.0; n];
+    let mut cond = vec![1.0; n];
+    let mut cacc = 1.0f64;
+    for k in 0..n {
+        let mut dk = DD::new(a.get(k, k));
+        let mut mk = a.get(k, k).abs();
+        let mut fill_terms = 0;
+        for j in 0..k {
+            let t = l[k * n + j] * l[k * n + j] * d[j];
+            if t.hi != 0.0 {
+                fill_terms += 1;
+            }
+            mk += t.f().abs();
+            dk = dk - t;
+        }
+        mag[k] = mk;
+        // rounding uncertainty of the implementation's own f64 value of this pivot
+        let unc = if fill_terms == 0 { 0.0 } else { 1e3 * (n as f64 + 1.0) * U * mk * cacc.min(1e12) };
+        if reg {
+            let s = signs[k] as f64;
+            let v = dk.f() * s;
+            if fill_terms > 0 && (v - eps).abs() <= unc + 1e-2 * eps {
+                dontcare = true;
+            }
+            if v < eps {
+                dk = DD::new(delta * s);
+                regularized[k] = true;
+            }
+        }
+        if !regularized[k] && fill_terms > 0 && dk.f().abs() <= unc {
+            // the exact-zero test of the implementation cannot be predicted
+            dontcare = true;
+        }
+        if dk.hi == 0.0 && dk.lo == 0.0 {
+            return RefLdl { l, d, regularized, dontcare, zero_pivot: Some(k), mag, cond };
+        }
+        d[k] = dk;
+        cacc = cacc.max(mk / dk.f().abs().max(1e-300));
+        cond[k] = cacc;
+        for i in k + 1..n {
+            let mut v = DD::new(a.get(i, k));
+            for j in 0..k {
+                v = v - l[i * n + j] * l[k * n + j] * d[j];
+            }
+            l[i * n + k] = v / dk;
+        }
+    }
+    RefLdl { l, d, regularized, dontcare, zero_pivot: None, mag, cond }
+}
+
+fn permuted_dense(asym: &Dense, perm: &[usize]) -> Dense {
+    let n = asym.n;
+    let mut p = Dense::zeros(n, n);
+    for i in 0..n {
+        for j in 0..n {
+            p.set(i, j, asym.get(perm[i], perm[j]));
+        }
+    }
+    p
+}
+
+struct Inst {
+    n: usize,
+    a: CscMatrix<f64>, // triu
+    signs: Vec<i8>,
+    perm: Option<Vec<usize>>,
+    reg: bool,
+    eps: f64,
+    delta: f64,
+}
+
+impl Inst {
+    fn json(&self) -> serde_json::Value {
+        json!({"A_triu": csc_json(&self.a), "Dsigns": self.signs, "perm": self.perm, "regularize": self.reg, "eps": self.eps, "delta": self.delta})
+    }
+    fn opts(&self) -> QDLDLSettings<f64> {
+        let mut o = QDLDLSettingsBuilder::default()
+            .Dsigns(self.signs.clone())
+            .regularize_enable(self.reg)
+            .regularize_eps(self.eps)
+            .regularize_delta(self.delta)
+            .build()
+            .unwrap();
+        o.perm = self.perm.clone();
+        o
+    }
+}
+
+/// factor + all oracles on one instance.  Returns the factorisation when Ok.
+fn check_instance(ctx: &mut Ctx, wl: &str, case: u64, inst: &Inst, rng: &mut Rng) -> Option<QDLDLFactorisation<f64>> {
+    let n = inst.n;
+    let inp = inst.json();
+    let opts = inst.opts();
+    let a2 = inst.a.clone();
+    let res = catch(move || QDLDLFactorisation::<f64>::new(&a2, Some(opts)));
+    ctx.eval(1);
+    let res = match res {
+        Ok(r) => r,
+        Err(msg) => {
+            ctx.violation("factor:panic", "factor:panic", wl, case, json!({"input": inp, "panic": msg}));
+            return None;
+        }
+    };
+    let asym = Dense::from_csc(&inst.a).sym_from_triu();
+    match res {
+        Err(e) => {
+            // only a zero pivot is a legitimate error on structurally valid input
+            let perm = match &inst.perm {
+                Some(p) => p.clone(),
+                None => {
+                    // AMD ordering unknown => cannot predict; accept ZeroPivot only
+                    if !matches!(e, QDLDLError::ZeroPivot) {
+                        ctx.violation("factor:unexpected-error", "factor:unexpected-error", wl, case, json!({"input": inp, "error": format!("{e:?}")}));
+                    } else {
+                        ctx.bump("zero_pivot_err_amd");
+                    }
+                    return None;
+                }
+            };
+            let ps: Vec<i8> = perm.iter().map(|&p| inst.signs[p]).collect();
+            let r = ref_ldl(n, &permuted_dense(&asym, &perm), &ps, inst.reg, inst.eps, inst.delta);
+            if matches!(e, QDLDLError::ZeroPivot) {
+                if r.zero_pivot.is_none() && !r.dontcare {
+                    ctx.violation("factor:spurious-zero-pivot", "factor:spurious-zero-pivot", wl, case, json!({"input": inp}));
+                } else {
+                    ctx.bump("zero_pivot_err");
+                }
+            } else {
+                ctx.violation("factor:unexpected-error", "factor:unexpected-error", wl, case, json!({"input": inp, "error": format!("{e:?}")}));
+            }
+            None
+        }
+        Ok(mut f) => {
+            // permutation must be a permutation
+            ctx.eval(1);
+            if !is_perm(&f.perm, n) {
+                ctx.violation("factor:perm-not-permutation", "factor:perm-not-permutation", wl, case, json!({"input": inp, "perm": f.perm}));
+                return None;
+            }
+            if let Some(p) = &inst.perm {
+                if &f.perm != p {
+                    ctx.violation("factor:perm-changed", "factor:perm-changed", wl, case, json!({"input": inp, "perm": f.perm}));
+                }
+            }
+            let perm = f.perm.clone();
+            let ps: Vec<i8> = perm.iter().map(|&p| inst.signs[p]).collect();
+            let pap = permuted_dense(&asym, &perm);
+            let r = ref_ldl(n, &pap, &ps, inst.reg, inst.eps, inst.delta);
+            ctx.bump(if r.dontcare { "instances_with_undecidable_pivot_(skipped_value_checks)" } else { "instances_fully_decided" });
+            let _ = &r.l;
+            if let Some(k) = r.zero_pivot {
+                if !r.dontcare {
+                    ctx.violation("factor:missed-zero-pivot", "factor:missed-zero-pivot", wl, case, json!({"input": inp, "pivot": k, "D": f.D}));
+                }
+                return Some(f);
+            }
+            // structure of L: strictly lower, canonical enough to decode
+            let ld = Dense::from_csc(&f.L);
+            let mut ok_struct = f.L.m == n && f.L.n == n && f.D.len() == n && f.Dinv.len() == n;
+            for j in 0..n {
+                for k in f.L.colptr[j]..f.L.colptr[j + 1] {
+                    if f.L.rowval[k] <= j {
+                        ok_struct = false;
+                    }
+                }
+            }
+            ctx.eval(1);
+            if !ok_struct {
+                ctx.violation("factor:L-structure", "factor:L-structure", wl, case, json!({"input": inp, "L": csc_json(&f.L)}));
+                return Some(f);
+            }
+            // growth-aware scale: max over |L||D||L'|
+            let mut growth = 0.0f64;
+            let mut recon = vec![DD::ZERO; n * n];
+            for i in 0..n {
+                for j in 0..=i {
+                    let mut s = DD::ZERO;
+                    let mut sa = 0.0;
+                    for k in 0..=j {
+                        let lik = if i == k { 1.0 } else { ld.get(i, k) };
+                        let ljk = if j == k { 1.0 } else { ld.get(j, k) };
+                        s = s + DD::new(lik) * DD::new(ljk) * DD::new(f.D[k]);
+                        sa += (lik * ljk * f.D[k]).abs();
+                    }
+                    recon[i * n + j] = s;
+                    growth = growth.max(sa);
+                }
+            }
+            let scale = growth.max(pap.max_abs());
+            let tol = 64.0 * (n as f64 + 1.0) * U * scale;
+            let mut worst = 0.0f64;
+            let mut bad = None;
+            for i in 0..n {
+                for j in 0..=i {
+                    let mut e = (recon[i * n + j] - DD::new(pap.get(i, j))).f().abs();
+                    if i == j && r.regularized[i] {
+                        // a regularised pivot perturbs the diagonal by design
+                        e = 0.0;
+                    }
+                    if e > worst {
+                        worst = e;
+                    }
+                    if e > tol && !r.dontcare {
+                        bad = Some((i, j, e));
+                    }
+                }
+            }
+            ctx.eval(1);
+            ctx.observe_max("recon_err_over_u_scale", worst / (U * scale.max(1e-300)));
+            if let Some((i, j, e)) = bad {
+                ctx.violation("factor:reconstruction", "factor:reconstruction", wl, case, json!({"input": inp, "at": [i, j], "err": e, "tol": tol, "D": f.D, "L": csc_json(&f.L), "perm": perm}));
+            }
+            // pivots: regularised exactly delta*sign, count, others close to the reference
+            if !r.dontcare {
+                ctx.eval(1);
+                let nreg = r.regularized.iter().filter(|&&b| b).count();
+                if f.regularize_count() != nreg {
+                    ctx.violation("factor:regularize_count", "factor:regularize_count", wl, case, json!({"input": inp, "got": f.regularize_count(), "want": nreg, "D": f.D, "ref_regularized": r.regularized, "perm": perm}));
+                }
+                for k in 0..n {
+                    if r.regularized[k] {
+                        if f.D[k] != inst.delta * ps[k] as f64 {
+                            ctx.violation("factor:regularized-pivot-value", "factor:regularized-pivot-value", wl, case, json!({"input": inp, "k": k, "got": f.D[k], "want": inst.delta * ps[k] as f64, "perm": perm}));
+                            break;
+                        }
+                    } else {
+                        let want = r.d[k].f();
+                        let cprev = if k == 0 { 1.0 } else { r.cond[k - 1] };
+                        if cprev > 1e8 {
+                            break; // unbounded growth: forward comparison of pivots is meaningless
+                        }
+                        let nn = n as f64 + 1.0;
+                        if (f.D[k] - want).abs() > 1e3 * nn * nn * U * r.mag[k] * cprev {
+                            ctx.violation("factor:pivot-value", "factor:pivot-value", wl, case, json!({"input": inp, "k": k, "got": f.D[k], "want": want, "perm": perm}));
+                            break;
+                        }
+                    }
+                }
+            }
+            // Dinv
+            ctx.eval(1);
+            for k in 0..n {
+                if f.Dinv[k] != 1.0 / f.D[k] {
+                    ctx.violation("factor:Dinv", "factor:Dinv", wl, case, json!({"input": inp, "k": k, "D": f.D[k], "Dinv": f.Dinv[k]}));
+                    break;
+                }
+            }
+            // inertia
+            ctx.eval(1);
+            let npos = f.D.iter().filter(|&&d| d > 0.0).count();
+            if f.positive_inertia() != npos {
+                ctx.violation("factor:positive_inertia", "factor:positive_inertia", wl, case, json!({"input": inp, "got": f.positive_inertia(), "count_D_positive": npos, "D": f.D}));
+            }
+            if !r.regularized.iter().any(|&b| b) && !r.dontcare && n > 0 {
+                let ev = asym.eigvals_sym();
+                let sc = asym.max_abs().max(1e-300);
+                if ev.iter().all(|e| e.abs() > 1e-7 * sc) && growth < 1e6 * sc {
+                    let want = ev.iter().filter(|&&e| e > 0.0).count();
+                    ctx.eval(1);
+                    ctx.bump("inertia_vs_eigenvalues");
+                    if f.positive_inertia() != want {
+                        ctx.violation("factor:inertia-vs-eigs", "factor:inertia-vs-eigs", wl, case, json!({"input": inp, "got": f.positive_inertia(), "eigs": ev}));
+                    }
+                }
+            }
+            // solve: residual against the matrix actually factored (A + regularisation perturbation)
+            if n > 0 {
+                let b: Vec<f64> = (0..n).map(|_| rng.small_int_val(4)).collect();
+                let mut x = b.clone();
+                let sr = catch(std::panic::AssertUnwindSafe(|| f.solve(&mut x)));
+                ctx.eval(1);
+                if let Err(msg) = sr {
+                    ctx.violation("solve:panic", "solve:panic", wl, case, json!({"input": inp, "panic": msg}));
+                } else if !r.dontcare {
+                    // effective matrix: A_eff = P'(LDL')P ; check A_eff x = b through A + E
+                    let ax = asym.matvec_dd(&x);
+                    let mut worst = 0.0f64;
+                    let xn = x.iter().fold(0.0f64, |m, v| m.max(v.abs()));
+                    for i in 0..n {
+                        // position of original index i in the permuted order
+                        let k = perm.iter().position(|&p| p == i).unwrap();
+                        let mut ri = ax[i] - DD::new(b[i]);
+                        if r.regularized[k] {
+                            let e = DD::new(f.D[k]) - (DD::new(pap.get(k, k)) - {
+                                let mut s = DD::ZERO;
+                                for j in 0..k {
+                                    s = s + DD::new(ld.get(k, j)) * DD::new(ld.get(k, j)) * DD::new(f.D[j]);
+                                }
+                                s
+                            });
+                            ri = ri + e * DD::new(x[i]);
+                        }
+                        worst = worst.max(ri.f().abs());
+                    }
+                    // growth in the solve: bound by cond-like factor through |L|,|Dinv|
+                    let dmin = f.D.iter().fold(f64::INFINITY, |m, d| m.min(d.abs()));
+                    let lmax = ld.max_abs().max(1.0);
+                    let amp = (scale / dmin.max(1e-300)).max(1.0) * lmax.powi(2);
+                    let tol = 256.0 * (n as f64 + 1.0) * U * (scale * xn + b.iter().fold(0.0f64, |m, v| m.max(v.abs()))) * amp.min(1e14);
+                    ctx.observe_max("solve_residual_over_tol", worst / tol.max(1e-300));
+                    if worst > tol && amp < 1e10 {
+                        ctx.violation("solve:residual", "solve:residual", wl, case, json!({"input": inp, "b": b, "x": x, "residual": worst, "tol": tol, "perm": perm}));
+                    }
+                }
+            }
+            Some(f)
+        }
+    }
+}
+
+fn build_matrix(n: usize, pat_bits: u64, signs: &[i8], rng: &mut Rng, style: u8) -> CscMatrix<f64> {
+    // pattern bits over triu positions (j major, i<=j)
+    let mut d = Dense::zeros(n, n);
+    let mut pat = vec![false; n * n];
+    let mut bit = 0;
+    for j in 0..n {
+        for i in 0..=j {
+            if (pat_bits >> bit) & 1 == 1 {
+                pat[i * n + j] = true;
+                let v = if i == j {
+                    let mag = match style {
+                        0 => rng.usize(2, 5) as f64 * 2.0, // dominant, exact
+                        1 => rng.range(1.0, 4.0) * 3.0,
+                        _ => rng.range(0.5, 2.0),
+                    };
+                    signs[j] as f64 * mag
+                } else {
+                    match style {
+                        0 => rng.small_int_val(2),
+                        _ => rng.range(-1.0, 1.0),
+                    }
+                };
+                d.set(i, j, v);
+            }
+            bit += 1;
+        }
+    }
+    d.to_csc_pattern(&pat)
+}
+
+fn has_empty_col(n: usize, pat_bits: u64) -> bool {
+    let mut bit = 0;
+    for j in 0..n {
+        let mut any = false;
+        for _i in 0..=j {
+            if (pat_bits >> bit) & 1 == 1 {
+                any = true;
+            }
+            bit += 1;
+        }
+        if !any {
+            return true;
+        }
+    }
+    false
+}
+
+/// W1: exhaustive patterns x orderings x sign vectors for small n
+fn w_exhaustive(ctx: &mut Ctx) {
+    let wl = "exhaustive";
+    let nmax = if ctx.flavour == "miri" { 3 } else { 4 };
+    // case = (n, pattern); orderings and signs enumerated inside
+    let mut cases: Vec<(usize, u64)> = vec![];
+    for n in 1..=nmax {
+        let nb = n * (n + 1) / 2;
+        for p in 0..(1u64 << nb) {
+            cases.push((n, p));
+        }
+    }
+    let total = cases.len() as u64;
+    for case in ctx.cases(wl, total) {
+        if ctx.out_of_budget() {
+            continue;
+        }
+        let (n, pbits) = cases[case as usize];
+        ctx.begin(wl, case);
+        let mut rng = Rng::for_case(ctx.seed, "C12/exhaustive", case);
+        let perms = all_perms(n);
+        if has_empty_col(n, pbits) {
+            // error contract: empty column => Err(EmptyColumn) for every ordering
+            let signs = vec![1i8; n];
+            let a = build_matrix(n, pbits, &signs, &mut rng, 0);
+            let inst = Inst { n, a, signs, perm: Some(perms[0].clone()), reg: true, eps: 1e-12, delta: 1e-7 };
+            let a2 = inst.a.clone();
+            let o = inst.opts();
+            ctx.eval(1);
+            match catch(move || QDLDLFactorisation::<f64>::new(&a2, Some(o)).map(|_| ())) {
+                Ok(Err(QDLDLError::EmptyColumn)) => ctx.bump("err_empty_column"),
+                Ok(other) => ctx.violation("contract:empty-column", "contract:empty-column", wl, case, json!({"input": inst.json(), "got": format!("{other:?}")})),
+                Err(msg) => ctx.violation("contract:empty-column", "contract:empty-column:panic", wl, case, json!({"input": inst.json(), "panic": msg})),
+            }
+            ctx.nontrivial_n(1);
+            continue;
+        }
+        for sbits in 0..(1u32 << n) {
+            let signs: Vec<i8> = (0..n).map(|i| if (sbits >> i) & 1 == 1 { -1 } else { 1 }).collect();
+            // style 0: exact small-integer data (regularisation decisions are exact)
+            let a = build_matrix(n, pbits, &signs, &mut rng, 0);
+            for perm in &perms {
+                let inst = Inst { n, a: a.clone(), signs: signs.clone(), perm: Some(perm.clone()), reg: true, eps: 1e-12, delta: 1e-7 };
+                check_instance(ctx, wl, case, &inst, &mut rng);
+            }
+            // one ordering with float data, regularisation off
+            let a = build_matrix(n, pbits, &signs, &mut rng, 1);
+            let perm = rng.choose(&perms).clone();
+            let inst = Inst { n, a, signs: signs.clone(), perm: Some(perm), reg: false, eps: 1e-12, delta: 1e-7 };
+            check_instance(ctx, wl, case, &inst, &mut rng);
+        }
+        // AMD ordering (perm = None)
+        let signs: Vec<i8> = (0..n).map(|_| if rng.bool(0.5) { -1 } else { 1 }).collect();
+        let a = build_matrix(n, pbits, &signs, &mut rng, 1);
+        let inst = Inst { n, a, signs, perm: None, reg: true, eps: 1e-12, delta: 1e-7 };
+        check_instance(ctx, wl, case, &inst, &mut rng);
+        ctx.nontrivial_n(1);
+        if case % 301 == 7 {
+            ctx.sample(json!({"workload": wl, "n": n, "pattern_bits": pbits, "orderings": perms.len(), "sign_vectors": 1 << n}));
+        }
+    }
+}
+
+/// W2: regularisation decisions — planted wrong-sign / zero / tiny pivots
+fn w_regularisation(ctx: &mut Ctx) {
+    let wl = "regularisation";
+    let total = ctx.count(4000, 100000);
+    for case in ctx.cases(wl, total) {
+        if ctx.out_of_budget() {
+            continue;
+        }
+        ctx.begin(wl, case);
+        let mut rng = Rng::for_case(ctx.seed, "C12/regularisation", case);
+        let n = rng.usize(1, 7);
+        let signs: Vec<i8> = (0..n).map(|_| if rng.bool(0.5) { -1 } else { 1 }).collect();
+        let mut d = Dense::zeros(n, n);
+        let mut pat = vec![false; n * n];
+        let dens = *rng.choose(&[0.0, 0.2, 0.5]);
+        // quasi-definite base with exact data, then plant anomalies on the diagonal
+        for j in 0..n {
+            pat[j * n + j] = true;
+            d.set(j, j, signs[j] as f64 * 8.0);
+            for i in 0..j {
+                // only couple opposite-sign blocks so that the base is quasi definite
+                if signs[i] != signs[j] && rng.bool(dens) {
+                    pat[i * n + j] = true;
+                    d.set(i, j, rng.small_int_val(1));
+                }
+            }
+        }
+        let mut planted = 0;
+        for j in 0..n {
+            let r = rng.unif();
+            if r < 0.15 {
+                d.set(j, j, -(signs[j] as f64) * 4.0); // wrong sign
+                planted += 1;
+            } else if r < 0.25 {
+                d.set(j, j, 0.0); // structural zero pivot
+                planted += 1;
+            } else if r < 0.32 {
+                d.set(j, j, signs[j] as f64 * 1e-14); // below eps
+                planted += 1;
+            } else if r < 0.38 {
+                d.set(j, j, signs[j] as f64 * 1e-9); // above eps: must NOT be regularised
+            }
+        }
+        let a = d.to_csc_pattern(&pat);
+        let perm = if rng.bool(0.8) { Some(rng.perm(n)) } else { None };
+        let reg = rng.bool(0.8);
+        let (eps, delta) = *rng.choose(&[(1e-12, 1e-7), (1e-13, 2e-7), (1e-6, 1e-3)]);
+        let inst = Inst { n, a, signs, perm, reg, eps, delta };
+        let f = check_instance(ctx, wl, case, &inst, &mut rng);
+        if let Some(f) = f {
+            if f.regularize_count() > 0 {
+                ctx.bump("instances_with_regularised_pivots");
+            }
+        }
+        if planted > 0 {
+            ctx.bump("instances_with_planted_anomalies");
+        }
+        let mut h = vkit::report::hash_new();
+        vkit::report::hash_f64s(&mut h, &d.a);
+        vkit::report::hash_usizes(&mut h, inst.perm.as_deref().unwrap_or(&[]));
+        ctx.nontrivial_hash(h);
+    }
+    // exact zero pivots with regularisation off => Err(ZeroPivot)
+    let wl2 = "zero_pivot";
+    let total = ctx.count(600, 10000);
+    for case in ctx.cases(wl2, total) {
+        ctx.begin(wl2, case);
+        let mut rng = Rng::for_case(ctx.seed, "C12/zero_pivot", case);
+        let n = rng.usize(2, 6);
+        let k = rng.usize(0, n - 2);
+        let mut d = Dense::zeros(n, n);
+        let mut pat = vec![false; n * n];
+        for j in 0..n {
+            pat[j * n + j] = true;
+            d.set(j, j, 4.0);
+        }
+        // 2x2 block [[d, v],[v, v^2/d]] at (k,k+1) => second pivot exactly zero; identity order
+        let dv = *rng.choose(&[1.0, 2.0, 4.0]);
+        let v = *rng.choose(&[1.0, 2.0, -2.0, 4.0]);
+        d.set(k, k, dv);
+        d.set(k, k + 1, v);
+        pat[k * n + k + 1] = true;
+        d.set(k + 1, k + 1, v * v / dv);
+        let a = d.to_csc_pattern(&pat);
+        let inst = Inst { n, a, signs: vec![1; n], perm: Some((0..n).collect()), reg: false, eps: 1e-12, delta: 1e-7 };
+        let a2 = inst.a.clone();
+        let o = inst.opts();
+        ctx.eval(1);
+        match catch(move || QDLDLFactorisation::<f64>::new(&a2, Some(o)).map(|f| f.D.clone())) {
+            Ok(Err(QDLDLError::ZeroPivot)) => ctx.bump("err_zero_pivot"),
+            Ok(other) => ctx.violation("contract:zero-pivot", "contract:zero-pivot", wl2, case, json!({"input": inst.json(), "got": format!("{other:?}")})),
+            Err(msg) => ctx.violation("contract:zero-pivot", "contract:zero-pivot:panic", wl2, case, json!({"input": inst.json(), "panic": msg})),
+        }
+        // same matrix with regularisation on: must succeed and regularise exactly that pivot
+        let inst2 = Inst { reg: true, ..Inst { n, a: inst.a.clone(), signs: vec![1; n], perm: inst.perm.clone(), reg: true, eps: 1e-12, delta: 1e-7 } };
+        check_instance(ctx, wl2, case, &inst2, &mut rng);
+        ctx.nontrivial_n(1);
+    }
+}
+
+/// W3: error contract — shapes and permutation vectors
+fn w_contract(ctx: &mut Ctx) {
+    let wl = "contract";
+    // all vectors in {0..n}^n for n<=4 as candidate permutations, on a fixed valid matrix per n
+    let mut cands: Vec<(usize, Vec<usize>)> = vec![];
+    for n in 1..=4usize {
+        let tot = (n + 1).pow(n as u32);
+        for c in 0..tot {
+            let mut x = c;
+            let v: Vec<usize> = (0..n)
+                .map(|_| {
+                    let d = x % (n + 1);
+                    x /= n + 1;
+                    d
+                })
+                .collect();
+            cands.push((n, v));
+        }
+    }
+    let total = cands.len() as u64;
+    for case in ctx.cases(wl, total) {
+        let (n, p) = cands[case as usize].clone();
+        if case % 64 == 0 {
+            ctx.begin(wl, case);
+        }
+        let mut rng = Rng::for_case(ctx.seed, "C12/contract", case);
+        // arrow-ish quasi definite matrix with all entries distinct so that a wrong solve is visible
+        let mut d = Dense::zeros(n, n);
+        for j in 0..n {
+            d.set(j, j, 10.0 + j as f64);
+            for i in 0..j {
+                d.set(i, j, 1.0 + 0.25 * (i + 2 * j) as f64);
+            }
+        }
+        let a = d.to_csc();
+        let valid = is_perm(&p, n);
+        let inst = Inst { n, a: a.clone(), signs: vec![1; n], perm: Some(p.clone()), reg: true, eps: 1e-12, delta: 1e-7 };
+        ctx.eval(1);
+        if valid {
+            check_instance(ctx, wl, case, &inst, &mut rng);
+            ctx.bump("valid_perm_vectors");
+        } else {
+            let o = inst.opts();
+            match catch(move || QDLDLFactorisation::<f64>::new(&a, Some(o)).map(|_| ())) {
+                Ok(Err(QDLDLError::InvalidPermutation)) => ctx.bump("err_invalid_permutation"),
+                Ok(Err(e)) => ctx.violation("contract:invalid-perm-error-kind", "contract:invalid-perm-error-kind", wl, case, json!({"perm": p, "n": n, "error": format!("{e:?}")})),
+                Ok(Ok(())) => {
+                    let kind = if p.iter().all(|&x| x < n) { "repeated-entries" } else { "out-of-range" };
+                    ctx.violation("contract:invalid-perm-accepted", &format!("contract:invalid-perm-accepted:{kind}"), wl, case, json!({"perm": p, "n": n, "note": "QDLDLFactorisation::new returned Ok for a vector that is not a permutation"}))
+                }
+                Err(msg) => ctx.violation("contract:invalid-perm-panic", "contract:invalid-perm-panic", wl, case, json!({"perm": p, "n": n, "panic": msg})),
+            }
+        }
+        ctx.nontrivial_n(1);
+    }
+    // wrong-length permutation vectors: Err or panic accepted, Ok is not
+    let wl2 = "contract_shapes";
+    if ctx.cases(wl2, 1).contains(&0) || ctx.is_replay() {
+        for case in ctx.cases(wl2, 1) {
+            ctx.begin(wl2, case);
+            let a: CscMatrix<f64> = Dense::eye(3).to_csc();
+            for p in [vec![], vec![0], vec![0, 1], vec![0, 1, 2, 3], vec![2, 1, 0, 0]] {
+                let mut o = QDLDLSettingsBuilder::<f64>::default().build().unwrap();
+                o.perm = Some(p.clone());
+                let a2 = a.clone();
+                ctx.eval(1);
+                match catch(move || QDLDLFactorisation::<f64>::new(&a2, Some(o)).map(|_| ())) {
+                    Ok(Ok(())) => ctx.violation("contract:wrong-length-perm-accepted", "contract:wrong-length-perm-accepted", wl2, case, json!({"perm": p})),
+                    _ => ctx.bump("wrong_length_perm_rejected"),
+                }
+            }
+            // non-square
+            let ns = Dense::zeros(2, 3).to_csc();
+            ctx.eval(1);
+            match catch(move || QDLDLFactorisation::<f64>::new(&ns, None).map(|_| ())) {
+                Ok(Err(QDLDLError::IncompatibleDimension)) => ctx.bump("err_non_square"),
+                other => ctx.violation("contract:non-square", "contract:non-square", wl2, case, json!({"got": format!("{other:?}")})),
+            }
+            // not upper triangular (all lower-triangle placements for n=3)
+            for bits in 1..8u32 {
+                let mut d = Dense::eye(3);
+                let pos = [(1, 0), (2, 0), (2, 1)];
+                for (k, &(i, j)) in pos.iter().enumerate() {
+                    if (bits >> k) & 1 == 1 {
+                        d.set(i, j, 1.0);
+                    }
+                }
+                let m = d.to_csc();
+                ctx.eval(1);
+                match catch(move || QDLDLFactorisation::<f64>::new(&m, None).map(|_| ())) {
+                    Ok(Err(QDLDLError::NotUpperTriangular)) => ctx.bump("err_not_triu"),
+                    other => ctx.violation("contract:not-triu", "contract:not-triu", wl2, case, json!({"lower_bits": bits, "got": format!("{other:?}")})),
+                }
+            }
+            ctx.nontrivial_n(1);
+        }
+    }
+}
+
+fn random_structured(rng: &mut Rng, nmax: usize) -> (usize, Dense, Vec<bool>, Vec<i8>, &'static str) {
+    let kind = rng.usize(0, 3);
+    let n = rng.usize(2, nmax);
+    let mut d = Dense::zeros(n, n);
+    let mut pat = vec![false; n * n];
+    let mut signs = vec![1i8; n];
+    let name;
+    match kind {
+        0 => {
+            name = "banded";
+            let bw = rng.usize(1, 4);
+            for j in 0..n {
+                for i in j.saturating_sub(bw)..j {
+                    if rng.bool(0.8) {
+                        pat[i * n + j] = true;
+                        d.set(i, j, rng.range(-1.0, 1.0));
+                    }
+                }
+                pat[j * n + j] = true;
+                d.set(j, j, 2.0 * bw as f64 + rng.range(1.0, 2.0));
+            }
+        }
+        1 => {
+            name = "arrow";
+            for j in 0..n {
+                pat[j * n + j] = true;
+                d.set(j, j, n as f64 + rng.range(1.0, 2.0));
+                if j == n - 1 {
+                    for i in 0..j {
+                        pat[i * n + j] = true;
+                        d.set(i, j, rng.range(-1.0, 1.0));
+                    }
+                }
+            }
+        }
+        2 => {
+            name = "block";
+            let bs = rng.usize(1, 4);
+            for j in 0..n {
+                pat[j * n + j] = true;
+                d.set(j, j, bs as f64 + rng.range(1.0, 2.0));
+                for i in (j / bs * bs)..j {
+                    pat[i * n + j] = true;
+                    d.set(i, j, rng.range(-1.0, 1.0));
+                }
+            }
+        }
+        _ => {
+            name = "kkt";
+            // [P A'; A -H] quasi definite
+            let n1 = rng.usize(1, n - 1);
+            for j in 0..n {
+                pat[j * n + j] = true;
+                if j < n1 {
+                    d.set(j, j, rng.range(0.5, 3.0));
+                } else {
+                    signs[j] = -1;
+                    d.set(j, j, -rng.range(0.5, 3.0));
+                }
+            }
+            for j in n1..n {
+                for i in 0..n1 {
+                    if rng.bool(0.3) {
+                        pat[i * n + j] = true;
+                        d.set(i, j, rng.range(-2.0, 2.0));
+                    }
+                }
+            }
+            // some P off-diagonals keeping diagonal dominance
+            for j in 0..n1 {
+                for i in 0..j {
+                    if rng.bool(0.1) {
+                        pat[i * n + j] = true;
+                        d.set(i, j, rng.range(-0.1, 0.1));
+                    }
+                }
+            }
+        }
+    }
+    (n, d, pat, signs, name)
+}
+
+/// W4: random larger structured matrices, AMD and explicit orderings
+fn w_random(ctx: &mut Ctx) {
+    let wl = "random";
+    let total = ctx.count(600, 12000);
+    let nmax = if ctx.flavour == "miri" { 8 } else if ctx.thorough() { 120 } else { 60 };
+    for case in ctx.cases(wl, total) {
+        if ctx.out_of_budget() {
+            continue;
+        }
+        ctx.begin(wl, case);
+        let mut rng = Rng::for_case(ctx.seed, "C12/random", case);
+        let (n, d, pat, signs, name) = random_structured(&mut rng, nmax);
+        let a = d.to_csc_pattern(&pat);
+        let perm = if rng.bool(0.5) { None } else { Some(rng.perm(n)) };
+        let inst = Inst { n, a, signs, perm, reg: true, eps: 1e-13, delta: 2e-7 };
+        let f = check_instance(ctx, wl, case, &inst, &mut rng);
+        ctx.bump(&format!("family_{name}"));
+        // logical factorisation has the same L pattern as the numeric one
+        if let Some(f) = f {
+            let mut o = inst.opts();
+            o.logical = true;
+            o.perm = Some(f.perm.clone());
+            ctx.eval(1);
+            if let Ok(fl) = QDLDLFactorisation::<f64>::new(&inst.a, Some(o)) {
+                if fl.L.colptr != f.L.colptr || fl.L.rowval != f.L.rowval {
+                    ctx.violation("logical:pattern-differs", "logical:pattern-differs", wl, case, json!({"input": inst.json()}));
+                }
+            } else {
+                ctx.violation("logical:error", "logical:error", wl, case, json!({"input": inst.json()}));
+            }
+        }
+        let mut h = vkit::report::hash_new();
+        vkit::report::hash_f64s(&mut h, &d.a);
+        ctx.nontrivial_hash(h);
+        if case < 2 {
+            ctx.sample(json!({"workload": wl, "family": name, "n": n, "nnz": pat.iter().filter(|&&p| p).count()}));
+        }
+    }
+}
+
+/// W5: histories of update/scale/offset/refactor vs a fresh factorisation (bit identity)
+fn w_histories(ctx: &mut Ctx) {
+    let wl = "histories";
+    let total = ctx.count(1500, 40000);
+    let nmax = if ctx.flavour == "miri" { 6 } else { 25 };
+    for case in ctx.cases(wl, total) {
+        if ctx.out_of_budget() {
+            continue;
+        }
+        ctx.begin(wl, case);
+        let mut rng = Rng::for_case(ctx.seed, "C12/histories", case);
+        let (n, d, pat, signs, _name) = random_structured(&mut rng, nmax);
+        let a = d.to_csc_pattern(&pat);
+        let perm = rng.perm(n);
+        let mk_opts = |perm: &Vec<usize>, signs: &Vec<i8>| {
+            let mut o = QDLDLSettingsBuilder::<f64>::default().Dsigns(signs.clone()).regularize_enable(true).regularize_eps(1e-13).regularize_delta(2e-7).build().unwrap();
+            o.perm = Some(perm.clone());
+            o
+        };
+        let mut live = match QDLDLFactorisation::<f64>::new(&a, Some(mk_opts(&perm, &signs))) {
+            Ok(f) => f,
+            Err(_) => {
+                ctx.inconclusive("initial factorisation failed", wl, case);
+                continue;
+            }
+        };
+        let mut model = a.clone();
+        let nnz = model.nnz();
+        let hist_len = rng.usize(1, 10);
+        let mut hist = vec![];
+        let mut failed = false;
+        for _step in 0..hist_len {
+            let op = rng.usize(0, 3);
+            let k = rng.usize(1, nnz.min(6));
+            let idx: Vec<usize> = (0..k).map(|_| rng.usize(0, nnz - 1)).collect();
+            match op {
+                0 => {
+                    // update values; keep diagonal signs so the matrix stays factorable
+                    let vals: Vec<f64> = idx
+                        .iter()
+                        .map(|&i| {
+                            let (r, c) = model.index_to_coord(i);
+                            if r == c {
+                                signs[c] as f64 * rng.range(3.0, 9.0)
+                            } else {
+                                rng.range(-1.0, 1.0)
+                            }
+                        })
+                        .collect();
+                    live.update_values(&idx, &vals);
+                    for (t, &i) in idx.iter().enumerate() {
+                        model.nzval[i] = vals[t];
+                    }
+                    hist.push(json!({"op": "update_values", "idx": idx, "vals": vals}));
+                }
+                1 => {
+                    let s = rng.range(0.5, 2.0);
+                    // distinct indices (scaling twice the same entry is still well defined: applied twice)
+                    live.scale_values(&idx, s);
+                    for &i in &idx {
+                        model.nzval[i] *= s;
+                    }
+                    hist.push(json!({"op": "scale_values", "idx": idx, "scale": s}));
+                }
+                2 => {
+                    let off = rng.range(0.0, 0.5);
+                    let sg: Vec<i8> = idx.iter().map(|_| *rng.choose(&[-1i8, 0, 1])).collect();
+                    live.offset_values(&idx, off, &sg);
+                    for (t, &i) in idx.iter().enumerate() {
+                        match sg[t] {
+                            1 => model.nzval[i] += off,
+                            -1 => model.nzval[i] -= off,
+                            _ => {}
+                        }
+                    }
+                    hist.push(json!({"op": "offset_values", "idx": idx, "offset": off, "signs": sg}));
+                }
+                _ => {
+                    hist.push(json!({"op": "refactor"}));
+                    if live.refactor().is_err() {
+                        failed = true;
+                        break;
+                    }
+                }
+            }
+        }
+        if failed {
+            ctx.bump("history_refactor_error");
+            continue;
+        }
+        hist.push(json!({"op": "refactor"}));
+        let r1 = live.refactor();
+        let fresh = QDLDLFactorisation::<f64>::new(&model, Some(mk_opts(&perm, &signs)));
+        ctx.eval(1);
+        let inp = json!({"A0": csc_json(&a), "Dsigns": signs, "perm": perm, "history": hist});
+        match (r1, fresh) {
+            (Ok(()), Ok(fr)) => {
+                let same = live.L.colptr == fr.L.colptr
+                    && live.L.rowval == fr.L.rowval
+                    && live.L.nzval.iter().zip(&fr.L.nzval).all(|(a, b)| a.to_bits() == b.to_bits())
+                    && live.D.iter().zip(&fr.D).all(|(a, b)| a.to_bits() == b.to_bits())
+                    && live.Dinv.iter().zip(&fr.Dinv).all(|(a, b)| a.to_bits() == b.to_bits())
+                    && live.positive_inertia() == fr.positive_inertia()
+                    && live.regularize_count() == fr.regularize_count();
+                if !same {
+                    ctx.violation("refactor:not-bit-identical", "refactor:not-bit-identical", wl, case, json!({"input": inp, "live_D": live.D, "fresh_D": fr.D}));
+                }
+                // the engine's private copy equals the model (verif accessor)
+                let vals = live.verif_values();
+                ctx.eval(1);
+                if vals.iter().zip(&model.nzval).any(|(a, b)| a.to_bits() != b.to_bits()) {
+                    ctx.violation("refactor:internal-copy", "refactor:internal-copy", wl, case, json!({"input": inp}));
+                }
+                // solves agree bitwise too
+                let b: Vec<f64> = (0..n).map(|_| rng.range(-1.0, 1.0)).collect();
+                let (mut x1, mut x2) = (b.clone(), b.clone());
+                live.solve(&mut x1);
+                let mut fr = fr;
+                fr.solve(&mut x2);
+                ctx.eval(1);
+                if x1.iter().zip(&x2).any(|(a, b)| a.to_bits() != b.to_bits()) {
+                    ctx.violation("refactor:solve-differs", "refactor:solve-differs", wl, case, json!({"input": inp}));
+                }
+                ctx.bump(&format!("history_len_{}", hist_len.min(10)));
+            }
+            (Err(_), Err(_)) => ctx.bump("history_both_error"),
+            (a, b) => ctx.violation("refactor:error-mismatch", "refactor:error-mismatch", wl, case, json!({"input": inp, "live": format!("{a:?}"), "fresh_ok": b.is_ok()})),
+        }
+        let mut h = vkit::report::hash_new();
+        vkit::report::hash_f64s(&mut h, &model.nzval);
+        vkit::report::hash_usizes(&mut h, &perm);
+        ctx.nontrivial_hash(h);
+        if case < 1 {
+            ctx.sample(json!({"workload": wl, "n": n, "history": hist}));
+        }
+    }
+}
+
+pub fn run(ctx: &mut Ctx) {
+    w_exhaustive(ctx);
+    w_contract(ctx);
+    if ctx.flavour == "miri" {
+        // reduced random slices under the interpreter
+        ctx.scale *= 0.02;
+    }
+    w_regularisation(ctx);
+    w_random(ctx);
+    w_histories(ctx);
+}
